@@ -38,6 +38,9 @@ VARIABLES regs, hist
 vars == <<regs, hist>>
 
 Regs == 1..NR
+\* destination registers: in "bfs" mode results go to register 1 (the choice of the
+\* destination adds nothing there); simulation uses all of them
+Dests == IF Mode = "bfs" THEN {1} ELSE Regs
 
 ---------------------------------------------------------------------------
 (* value generators *)
@@ -48,14 +51,6 @@ DepFuns(cod) ==
     ELSE LET f == CHOOSE f \in DOMAIN cod : TRUE
              rest == [g \in DOMAIN cod \ {f} |-> cod[g]]
          IN  {[g \in DOMAIN cod |-> IF g = f THEN x ELSE h[g]] : h \in DepFuns(rest), x \in cod[f]}
-
-MatSet(r, c, G) == [1..r -> [1..c -> G]]
-DerivSet(r, c, G) == {B!None} \cup {B!Some(m) : m \in MatSet(r, c, G)}
-PartCod(f) ==
-    IF f = "re" THEN ReGrid
-    ELSE IF B!IsVec(Ty) THEN LET d == B!PartDims(Ty, f) IN DerivSet(d[1], d[2], PartGrid)
-    ELSE PartGrid
-ValueSet == DepFuns([f \in {"re"} \cup B!FieldSet(Ty) |-> PartCod(f)])
 
 \* one pseudo-random value (simulation mode only)
 RandMat(r, c) == [i \in 1..r |-> [j \in 1..c |-> RandomElement(PartGrid)]]
@@ -93,33 +88,31 @@ Load ==
         ELSE Do([op |-> "load", form |-> "", a |-> d, b |-> d, c |-> d, d |-> d,
                  s |-> Q0, n |-> 0, rs |-> NoRs, v |-> RandValue])
 Bin ==
-    \E op \in BinOps, form \in BinForms, a \in Regs, b \in Regs, d \in Regs :
-        /\ form = "assign" => d = a
-        /\ Do(Ev(op, form, a, b, a, d, Q0, 0, NoRs))
+    \E op \in BinOps, form \in BinForms, a \in Regs, b \in Regs, d \in Dests :
+        /\ Do(Ev(op, form, a, b, a, IF form = "assign" THEN a ELSE d, Q0, 0, NoRs))
 BinF ==
-    \E op \in FOps, form \in FForms, a \in Regs, d \in Regs, s \in ScalarGrid :
-        /\ form = "assign" => d = a
-        /\ Do(Ev(op, form, a, a, a, d, s, 0, NoRs))
+    \E op \in FOps, form \in FForms, a \in Regs, d \in Dests, s \in ScalarGrid :
+        /\ Do(Ev(op, form, a, a, a, IF form = "assign" THEN a ELSE d, s, 0, NoRs))
 Un ==
-    \E op \in UnOps, a \in Regs, d \in Regs : Do(Ev(op, "", a, a, a, d, Q0, 0, NoRs))
+    \E op \in UnOps, a \in Regs, d \in Dests : Do(Ev(op, "", a, a, a, d, Q0, 0, NoRs))
 Powi ==
-    \E n \in PowSet, a \in Regs, d \in Regs : Do(Ev("powi", "", a, a, a, d, Q0, n, NoRs))
+    \E n \in PowSet, a \in Regs, d \in Dests : Do(Ev("powi", "", a, a, a, d, Q0, n, NoRs))
 Powf ==
     \E q \in {QInt(n) : n \in PowSet} \cup {<<1, 2>>, <<3, 2>>, <<5, 2>>, <<-1, 2>>},
-       a \in Regs, d \in Regs :
+       a \in Regs, d \in Dests :
         Do(Ev("powf", "", a, a, a, d, q, 0, NoRs))
 Bin2 ==
-    \E op \in {"powd", "atan2", "abs_sub"}, a \in Regs, b \in Regs, d \in Regs :
+    \E op \in {"powd", "atan2", "abs_sub"}, a \in Regs, b \in Regs, d \in Dests :
         Do(Ev(op, "", a, b, a, d, Q0, 0, NoRs))
 MulAdd ==
-    \E a \in Regs, b \in Regs, c \in Regs, d \in Regs :
+    \E a \in Regs, b \in Regs, c \in Regs, d \in Dests :
         Do(Ev("mul_add", "", a, b, c, d, Q0, 0, NoRs))
 Fold ==
-    \E op \in {"sum", "product"}, form \in {"owned", "ref"}, k \in 0..3, d \in Regs :
+    \E op \in {"sum", "product"}, form \in {"owned", "ref"}, k \in 0..3, d \in Dests :
         \E rs \in [1..k -> Regs] : Do(Ev(op, form, d, d, d, d, Q0, 0, rs))
 Const ==
-    \/ \E op \in {"zero", "one"}, d \in Regs : Do(Ev(op, "", d, d, d, d, Q0, 0, NoRs))
-    \/ \E s \in ScalarGrid, d \in Regs : Do(Ev("from_f", "", d, d, d, d, s, 0, NoRs))
+    \/ \E op \in {"zero", "one"}, d \in Dests : Do(Ev(op, "", d, d, d, d, Q0, 0, NoRs))
+    \/ \E s \in ScalarGrid, d \in Dests : Do(Ev("from_f", "", d, d, d, d, s, 0, NoRs))
 Obs ==
     \/ \E op \in Preds \cup {"re"}, a \in Regs : Do(Ev(op, "", a, a, a, a, Q0, 0, NoRs))
     \* PartialOrd / real-part PartialEq exist on the four field-compatible types only
@@ -188,11 +181,46 @@ AbsentIsZeroStep(pre, h) ==
        IN  IF IsObs(h.ev.op) THEN res = h.post ELSE ZeroFill(res) = ZeroFill(h.post)
 AbsentIsZero ==
     [][hist' # hist => AbsentIsZeroStep(regs, hist'[Len(hist')])]_vars
+\* C08 as an action property: every syntactic form equals the canonical operation
+\* between dual numbers with the scalar lifted to a constant
+DerivPartsZero(v) ==
+    \A f \in B!FieldSet(Ty) :
+        IF B!IsVec(Ty) THEN (\A q \in DScalars(v[f]) : QIsZero(q)) ELSE QIsZero(v[f])
+BinCanon(op, x, y) ==
+    CASE op \in {"add", "add_f"} -> B!AddB(Ty, x, y)
+      [] op \in {"sub", "sub_f"} -> B!SubB(Ty, x, y)
+      [] op \in {"mul", "mul_f"} -> B!MulB(Ty, x, y)
+      [] op \in {"div", "div_f"} -> B!DivB(Ty, x, y)
+FormsAgreeStep(pre, h) ==
+    LET ev == h.ev  a == pre[ev.a]  b == pre[ev.b]  c == pre[ev.c]
+        same(x) == ZeroFill(x) = ZeroFill(h.post)
+    IN  CASE ev.op \in BinOps -> same(BinCanon(ev.op, a, b))
+          [] ev.op \in FOps   -> same(BinCanon(ev.op, a, B!FromFB(Ty, ev.s)))
+          [] ev.op \in {"neg", "neg_ref"} -> same(B!SubB(Ty, B!ZeroB(Ty), a))
+          [] ev.op \in {"inv", "recip"} -> same(B!DivB(Ty, B!OneB(Ty), a))
+          [] ev.op = "mul_add" -> same(B!AddB(Ty, B!MulB(Ty, a, b), c))
+          [] ev.op \in {"zero", "one", "from_f"} ->
+                /\ DerivPartsZero(h.post)
+                /\ h.post.re = (IF ev.op = "zero" THEN Q0 ELSE IF ev.op = "one" THEN Q1 ELSE ev.s)
+          [] ev.op = "sum" ->
+                same(B!SumB(Ty, [i \in 1..Len(ev.rs) |-> pre[ev.rs[i]]]))
+          [] ev.op = "product" ->
+                same(B!ProductB(Ty, [i \in 1..Len(ev.rs) |-> pre[ev.rs[i]]]))
+          [] OTHER -> TRUE
+FormsAgree ==
+    [][hist' # hist => FormsAgreeStep(regs, hist'[Len(hist')])]_vars
+
 ---------------------------------------------------------------------------
 (* grids used by the configs (overridden via  X <- Name) *)
 \* a small set of "generic" values: all parts pairwise distinct, mixed signs, one
 \* value per presence pattern of the optional parts plus variants with zeros
-GenScalar(k) == QMake((IF k % 2 = 0 THEN -1 ELSE 1) * (k + 1), IF k % 3 = 0 THEN 2 ELSE 1)
+\* small values keep every operation inside TLC's 32-bit integers (and inside the f32
+\* mantissa when Mant = 24): see ExactOK in Calc.tla
+SmallVals == IF Mant >= 53
+             THEN << <<1, 1>>, <<-2, 1>>, <<3, 1>>, <<-1, 2>>, <<2, 1>>, <<-3, 1>>, <<3, 2>>, <<-1, 1>>,
+                     <<1, 2>>, <<-3, 2>> >>
+             ELSE << <<1, 1>>, <<-2, 1>>, <<3, 1>>, <<-1, 1>>, <<2, 1>>, <<-3, 1>> >>
+GenScalar(k) == SmallVals[(k % Len(SmallVals)) + 1]
 FieldIdx(f) == CHOOSE i \in 1..Len(B!Fields(Ty)) : B!Fields(Ty)[i] = f
 GenValue(k, pres, re) ==
     [f \in {"re"} \cup B!FieldSet(Ty) |->
@@ -205,8 +233,15 @@ GenValue(k, pres, re) ==
                   ELSE B!None
              ELSE GenScalar(k + 2 * FieldIdx(f))]
 PresSet == IF B!IsVec(Ty) THEN [B!FieldSet(Ty) -> BOOLEAN] ELSE {[f \in B!FieldSet(Ty) |-> TRUE]}
+LoadSetQuick ==
+    {GenValue(1, p, <<2, 1>>) : p \in PresSet}
+    \cup {GenValue(3, [f \in B!FieldSet(Ty) |-> TRUE], <<2, 1>>)}   \* same real part, other parts
+    \cup {GenValue(4, [f \in B!FieldSet(Ty) |-> TRUE], IF Mant >= 53 THEN <<-1, 2>> ELSE <<-1, 1>>)}
+    \cup {GenValue(2, [f \in B!FieldSet(Ty) |-> TRUE], r) : r \in {<<0, 1>>, <<1, 1>>, <<4, 1>>}}
 LoadSetGeneric ==
-    {GenValue(1, p, <<2, 1>>) : p \in PresSet} \cup {GenValue(4, p, <<-1, 2>>) : p \in PresSet}
+    {GenValue(1, p, <<2, 1>>) : p \in PresSet}
+    \cup {GenValue(3, [f \in B!FieldSet(Ty) |-> TRUE], <<2, 1>>)}
+    \cup {GenValue(4, p, IF Mant >= 53 THEN <<-1, 2>> ELSE <<-1, 1>>) : p \in PresSet}
     \cup {GenValue(2, [f \in B!FieldSet(Ty) |-> TRUE], r) : r \in {<<0, 1>>, <<1, 1>>, <<4, 1>>}}
 ReGridSmall   == {<<1, 1>>, <<-2, 1>>, <<1, 2>>, <<0, 1>>, <<4, 1>>}
 PartGridSmall == {<<1, 1>>, <<-3, 1>>, <<0, 1>>, <<1, 2>>}
